@@ -306,7 +306,8 @@ def get_negative_objects(
             non_candidates.append(object_result.ground_truth_object)
 
     for ground_truth_object in ground_truth_objects:
-        if ground_truth_object in non_candidates:
+        # NOTE: compare by identity, `DynamicObject.__eq__` compares the state only
+        if any(ground_truth_object is non_candidate for non_candidate in non_candidates):
             continue
 
         if ground_truth_object.semantic_label.is_fp():
